@@ -3,3 +3,4 @@ import AmVerif.Props.C18
 import AmVerif.Props.C03
 import AmVerif.Props.C02
 import AmVerif.Props.C01
+import AmVerif.Props.C16
